@@ -481,6 +481,23 @@ def is_zero(e, hyps=(), smt_timeout=2000, positive=(), max_splits=16):
 
 
 # ---------------------------------------------------------------------- numeric side: sampling and refutation
+def concretize(expr):
+    """replace applications of uninterpreted functions by fixed concrete smooth functions (numeric guard / counterexample search only)"""
+    from sympy.core.function import AppliedUndef
+    if not expr.atoms(AppliedUndef): return expr
+    def conc(f):
+        name = f.func.__name__; h = sum(ord(c) * (i + 3) for i, c in enumerate(name)) % 7 + 2
+        a = f.args
+        return sum((i + h) * x ** 2 / 7 + (h - i) * x / 3 for i, x in enumerate(a)) + sp.Mul(*a) / h + sp.Rational(h, 5)
+    fs = {}
+    for f in expr.atoms(AppliedUndef): fs[f.func] = None
+    e = expr
+    for F in fs:
+        e = e.replace(lambda x, F=F: isinstance(x, AppliedUndef) and x.func == F, conc)
+    return e.doit()
+
+
+
 def numeric(e, point, prec=40):
     """numeric value at a point (no exact substitution: rational**rational would be simplified exactly, slowly)"""
     e = sp.sympify(e)
@@ -510,6 +527,7 @@ def sample_points(symbols, hyps, n, seed=0, witness=None, tries=4000, ranges=Non
     rnd = random.Random(seed)
     pts = []
     if witness: pts.append(dict(witness))
+    hyps = [concretize(h) if isinstance(h, sp.Basic) and not isinstance(h, sp.Symbol) and h.atoms(sp.core.function.AppliedUndef) else h for h in hyps]
     symbols = sorted(symbols, key=lambda s: s.name)
     k = 0
     while len(pts) < n and k < tries:
